@@ -396,4 +396,21 @@ operations accepted, the patch file was parsed and its operations applied. -/
 def hookOk (exit : Nat) (metrics : List Char) (patchOk : Bool) : Bool :=
   exit == 0 && metricsOk metrics && patchOk
 
+/-- How the hook process ended (`os.ProcessState`): it exited with a status code, or it was
+terminated by a signal — then `ExitCode()` is -1 and there is no status code. -/
+inductive ProcEnd
+  | exited (code : Nat)
+  | signaled (sig : Nat)
+  deriving DecidableEq, Repr
+
+/-- `cmd.Run()` returned nil: `ProcessState.Success()`, i.e. exited *and* status 0
+(`RunAndLogLines`: any other end is an `*exec.ExitError`, the run has failed). -/
+def ProcEnd.success : ProcEnd → Bool
+  | .exited 0 => true
+  | _ => false
+
+/-- `handleRunHook` returned nil, for a process that ended in `p`. -/
+def runOk (p : ProcEnd) (metrics : List Char) (patchOk : Bool) : Bool :=
+  p.success && metricsOk metrics && patchOk
+
 end ShellOp.HookOutput
